@@ -2228,7 +2228,8 @@ class C08(Property):
         "object completion from an outer scope (recursiveValuer) mutates the document in place: generated only where no other "
         "field reads the completed object",
         "outside the fragment (never generated): env=, inherit, TextUnmarshaler/json.Unmarshaler fields, time.Duration, "
-        "pointers to slices/maps, []byte from base64, strings holding JSON for slice/map fields, map[string]any, hexadecimal or "
+        "pointers to slices/maps, []byte from base64, strings holding JSON for map fields (or objects / escapes / non-ASCII for "
+        "slice fields), map[string]any, hexadecimal or "
         "'_'-separated float strings, fillDefault mode, '-' or slice defaults inside an embedded ',optional' struct, default texts "
         "for non-string slices outside printable ASCII without { } \\ :",
     ]
